@@ -318,7 +318,34 @@ let catlog_case (line : string) : string =
       st ^ " " ^ hex (List.concat (List.map render_ev evs))
   | _ -> "BADCASE"
 
+(* SQLite abstraction (Sqlite/Wal.v): one case per line
+     <mode>:<ops> <mode>:<ops> ... | <connection index per step ...>      mode D|I, ops a string over R W
+   Output: the outcome of every step; a connection that got busy rolls back and stops. *)
+let wal_case (line : string) : string =
+  match String.split_on_char '|' line with
+  | [ps; sched] ->
+      let words x = List.filter (fun w -> w <> "") (String.split_on_char ' ' x) in
+      let prog w =
+        match String.split_on_char ':' w with
+        | [m; ops] -> { pmode = (if m = "I" then Immediate else Deferred);
+                        pops = List.map (fun c -> if c = 'W' then OWrite else ORead) (List.init (String.length ops) (String.get ops)) }
+        | _ -> failwith "prog" in
+      let ps = List.map prog (words ps) in
+      let rec nat_of_int i = if i <= 0 then O else S (nat_of_int (i - 1)) in
+      let d = ref (wal_init ps) in
+      let dead = Hashtbl.create 4 in
+      String.concat " " (List.map (fun w ->
+        let i = int_of_string w in
+        if Hashtbl.mem dead i then "ok" else
+        match wal_step ps (nat_of_int i) !d with
+        | Ok d' -> d := d'; "ok"
+        | Blocked d' -> d := d'; "blocked"
+        | Busy -> d := wal_abort (nat_of_int i) !d; Hashtbl.replace dead i (); "busy") (words sched))
+  | _ -> "BADCASE"
+
 let () =
+  if Array.length Sys.argv > 1 && Sys.argv.(1) = "wal" then begin
+    (try while true do print_endline (wal_case (input_line stdin)) done with End_of_file -> ()); exit 0 end;
   if Array.length Sys.argv > 1 && Sys.argv.(1) = "catlog" then begin
     (try while true do print_endline (catlog_case (input_line stdin)) done with End_of_file -> ()); exit 0 end;
   if Array.length Sys.argv > 2 && Sys.argv.(1) = "lcktrace" then begin
